@@ -103,6 +103,8 @@ func cmdCheck(args []string) int {
 	known := fs.String("known", "/verif/known_findings.json", "known findings file")
 	replayDir := fs.String("replays", "/verif/replays", "replay output directory")
 	common := fs.String("common", "/verif/spec/common.gospec", "shared spec definitions")
+	keep := fs.Bool("keep", false, "keep the SMT work directory")
+	slow := fs.Int("slow", 2000, "report obligations slower than this many ms (verbose)")
 	overlayFile := fs.String("overlay", "", "json file {path: replacement-path} applied as source overlay")
 	fs.Parse(args)
 	t0 := time.Now()
@@ -273,6 +275,9 @@ func cmdCheck(args []string) int {
 				continue
 			}
 			nObl++
+			if *verbose && o.Ms > int64(*slow) {
+				fmt.Printf("    slow: %s %dms %v\n", o.Name, o.Ms, o.Tried)
+			}
 			switch o.Status {
 			case "discharged":
 				nDis++
@@ -386,7 +391,9 @@ func cmdCheck(args []string) int {
 		}
 		return 2
 	}
-	os.RemoveAll(*workdir)
+	if !*keep {
+		os.RemoveAll(*workdir)
+	}
 	return 0
 }
 
